@@ -99,6 +99,21 @@ def cli_part(chk):
             recs = [bytes(rng.choice([0, 10, 13, 97, 255, 45]) for _ in range(rng.randint(0, 5))) for _ in range(rng.randint(1, 3))]
         else:
             d = c.get("d") or b"\t"
+            if "-M" not in argv and rng.random() < 0.25:
+                # a regex delimiter whose meaning does not involve LF or NUL (literals, classes, `+`, the anchors ^ $ = ends of the RECORD): the
+                # expression is compiled by main, and nothing in how it is compiled may make LF special inside a NUL-terminated record
+                rx = rng.choice(["-", "[-,]", "-+", "^-", "-$", "^x+|y$", "^-|,"])
+                rest, skip = [], False
+                for a in argv:
+                    if skip:
+                        skip = False
+                        continue
+                    if a == "-d":
+                        skip = True
+                        continue
+                    rest.append(a)
+                argv = rest + ["-e", rx]
+                d = b"-,"
             alpha = [bytes([x]) for x in d] * 2 + [b"x", b"y", b"\0", b"\r", b"\xff"]
             recs = [b"".join(rng.choice(alpha) for _ in range(rng.randint(0, 7))) for _ in range(rng.randint(1, 4))]
         inp = b"\n".join(recs) + (b"\n" if rng.random() < 0.7 else b"")
